@@ -78,7 +78,8 @@ class Driver:
 def run_explore(drv, job, liveness_fallback=False):
     mode = job.get("mode") or {}
     res = explore(drv, job, k=mode.get("k"), cap=mode.get("cap", 4000), audit_every=mode.get("audit", 0),
-                  max_depth=mode.get("depth", 120), depth_is_bound=bool(mode.get("depth_bound")))
+                  max_depth=mode.get("depth", 120), depth_is_bound=bool(mode.get("depth_bound")),
+                  order=mode.get("order"))
     if liveness_fallback and res.capped and mode.get("k") is None:
         # the full graph is incomplete, so the fair-schedule walk could not be done on it: decide liveness on the
         # concrete prompt schedule instead (k=0, every execution runs until quiet or H steps)
